@@ -781,7 +781,14 @@ impl<'a> Socket<'a> {
         let next_ack = self.remote_seq_no + self.rx_buffer.len();
 
         let last_win = (self.remote_last_win as usize) << self.remote_win_shift;
-        let last_win_adjusted = last_ack + last_win - next_ack;
+        // The right edge can lie behind `next_ack` when nothing has been sent yet
+        // (e.g. a SYN arrives for a socket whose own SYN is still waiting for ARP).
+        let last_edge = last_ack + last_win;
+        let last_win_adjusted = if last_edge >= next_ack {
+            last_edge - next_ack
+        } else {
+            0
+        };
 
         Some(u16::try_from(last_win_adjusted >> self.remote_win_shift).unwrap_or(u16::MAX))
     }
